@@ -123,4 +123,36 @@ PROPS = {
                 "first payments); finally a mnemonic restore on a fresh instance (index hint 0 or random) must find "
                 "every issued address that has chain history. Non-trivial = at least one address was issued and checked.",
     },
+    "C07": {
+        "level": "exploration",
+        "quick_runs": 900, "thorough_runs": 30000, "chunk": 30,
+        "thorough_params": {"pre": 60, "post": 30, "longpct": 15},
+        "nontrivial_stat": "check.restore_equal.nonempty",
+        "rule": "one run = instance X follows a generated chain live with 1-2 wallets (payments of all kinds, forks, "
+                "address requests with gap limits 3..10; 8% of runs on a pre-mined chain of 1000-2700 blocks so the rescan "
+                "spans 2-3 batches); at a seeded moment one wallet is restored into a fresh instance Y from its mnemonic "
+                "(index hint right, lower or higher) or from an exported keystore, and the chain keeps moving (blocks and "
+                "forks below/above the rescan cursor) while the schedule tape interleaves rescan batches, the "
+                "suspend/resume hand-shake and tip deliveries on both instances. Oracle: importing status shown and "
+                "UseWallet refused until done; import finished once the chain stands still (fair-drain liveness); the "
+                "restored wallet and the original both equal the ledger model; every address that had chain history at the "
+                "time of the restore and lies within the reach of the documented gap scan is rediscovered. Non-trivial = "
+                "the restored wallet ended with coins.",
+    },
+    "C08": {
+        "level": "exploration",
+        "quick_runs": 2500, "thorough_runs": 80000, "chunk": 100,
+        "thorough_params": {"pre": 70},
+        "nontrivial_stat": "probe.removed_wallet_had_coins",
+        "rule": "one run = 2-3 wallets sharing transactions (multi-input sweeps, staking/binding deposits, pending "
+                "transactions) over a generated chain with forks; one wallet is removed at a seeded moment: first with a wrong "
+                "passphrase (must be refused), then for real, either with the chain standing still or with blocks and "
+                "forks arriving between the removal rounds (schedule tape). Oracle after quiescence: the wallet is not "
+                "listed; a raw scan of every bucket finds no key containing its id or addresses and no credit value "
+                "owned by its script hashes; every other wallet equals the ledger model and, when the chain stood "
+                "still, is byte-identical in its API observation; later forks across blocks that held shared "
+                "transactions keep the survivors equal to the model; re-importing the mnemonic succeeds and ends "
+                "equal to the model. Crash between any two removal commits is enumerated by the C06 check, whose "
+                "histories contain removals. Non-trivial = the removed wallet owned coins.",
+    },
 }
